@@ -110,6 +110,33 @@ fn main() {
     if !matches!(argv[1].as_str(), "selfcheck" | "c02-digest-server" | "c02-one" | "miri-slice") && ctx.replay.is_none() {
         refcodec::evidence::silence_stdout();
     }
+    // resource watchdog: the code under test may loop or allocate without end (that is what some of the properties are
+    // about).  A check that neither finishes within its budget nor stays within the memory budget ends INCONCLUSIVE
+    // (exit 2) instead of taking the machine down; the monitors that *judge* progress and allocation (C02, C10) have
+    // their own, much tighter, oracles.
+    if argv[1].starts_with('C') && ctx.replay.is_none() {
+        let id = argv[1].clone();
+        let budget_s: u64 = std::env::var("VERIF_WATCHDOG_S").ok().and_then(|s| s.parse().ok()).unwrap_or(if ctx.tier == "quick" { 1500 } else { 6 * 3600 });
+        let mem_budget_kb: u64 = std::env::var("VERIF_MEM_BUDGET_KB").ok().and_then(|s| s.parse().ok()).unwrap_or(40 << 20);
+        std::thread::spawn(move || {
+            let start = std::time::Instant::now();
+            loop {
+                std::thread::sleep(std::time::Duration::from_millis(500));
+                let rss_kb = std::fs::read_to_string("/proc/self/statm").ok().and_then(|t| t.split_whitespace().nth(1).and_then(|p| p.parse::<u64>().ok())).map(|pages| pages * 4).unwrap_or(0);
+                let why = if start.elapsed().as_secs() > budget_s {
+                    Some(format!("the check did not finish within {budget_s} s (the code under test may be looping)"))
+                } else if rss_kb > mem_budget_kb {
+                    Some(format!("the check's memory grew beyond {} MiB (the code under test may be allocating or producing events without end)", mem_budget_kb >> 10))
+                } else {
+                    None
+                };
+                if let Some(why) = why {
+                    refcodec::outln!("INCONCLUSIVE property={id} resource watchdog: {why}");
+                    std::process::exit(2);
+                }
+            }
+        });
+    }
     let code = match argv[1].as_str() {
         "C01" | "C03" | "C13" | "C14" => codecprops::run(&ctx, &argv[1]),
         "C02" => c02::run(&ctx),
